@@ -22,12 +22,23 @@ BIG = {
     "qr": {"quick": [(33, 33), (40, 35), (34, 47), (130, 130), (140, 129), (129, 150)],
            "thorough": [(31, 31), (32, 32), (33, 33), (40, 35), (34, 47), (63, 65), (65, 64), (96, 96), (128, 128),
                         (129, 129), (130, 130), (140, 129), (129, 150), (161, 161), (200, 160), (160, 200)]},
+    "qp3": {"quick": [(130, 130), (161, 161), (200, 200), (140, 170)],
+            "thorough": [(129, 129), (130, 130), (160, 160), (161, 161), (162, 200), (200, 161), (200, 200), (140, 170),
+                         (193, 193)]},
+    "tri": {"quick": [(70, 70), (97, 97), (130, 130)],
+            "thorough": [(n, n) for n in (63, 64, 65, 66, 96, 100, 127, 128, 129, 130, 200)]},
+    "ls": {"quick": [(40, 33), (140, 130)],
+           "thorough": [(40, 33), (70, 64), (129, 129), (140, 130), (200, 150), (161, 161)]},
+    "pb": {"quick": [(90, 66), (40, 33)], "thorough": [(130, 70), (100, 65), (90, 66), (70, 64), (40, 33)]},   # (n, kd)
+    "td": {"quick": [(70, 70), (200, 200)], "thorough": [(33, 33), (70, 70), (129, 129), (200, 200)]},
+    "aux": {"quick": [(45, 60), (70, 33)], "thorough": [(45, 60), (70, 33), (130, 129), (64, 200)]},
     "larft": {"quick": [], "thorough": []},
 }
 LEMMA = {"quick": dict(SMALL=5, BIG=[(12, 12), (9, 14)]), "thorough": dict(SMALL=8, BIG=[(20, 20), (33, 30), (14, 25)])}
-FAMS = ("lu", "chol", "qr", "larft")
+FAMS = ("lu", "chol", "qr", "qp3", "tri", "ls", "pb", "td", "aux", "larft")
+NOFORCE = ("larft", "td", "aux")   # families without block-size dependent code
 FORCED = {"quick": [(1, 0), (2, 0), (3, 0), (4, 0), (2, 2), (3, 2)],
-          "thorough": [(nb, nx) for nb in (1, 2, 3, 4, 5, 7) for nx in (0, 2)]}
+          "thorough": [(1, 0), (2, 0), (3, 0), (4, 0), (5, 0), (7, 0), (2, 2), (3, 2)]}
 
 
 def enc(shapes):
@@ -49,7 +60,7 @@ def run(ctx):
     # ---- R1: uniqueness / definition lemmas behind the planted instances --------------------
     lm = LEMMA[ctx.tier]
     for fam in FAMS:
-        big = lm["BIG"] if fam in ("lu", "qr") else [(n, n) for _, n in lm["BIG"]] if fam == "chol" else []
+        big = lm["BIG"] if fam in ("lu", "qr", "qp3") else [(m + n, n) for m, n in lm["BIG"]] if fam == "ls" else [(n, n) for _, n in lm["BIG"]] if fam in ("chol", "tri", "td") else lm["BIG"] if fam == "aux" else [(12, 3), (9, 9)] if fam == "pb" else []
         ctx.tlc("lapack/PlantedLemmas.tla", "lapack/PlantedLemmas.cfg", name="R1 PlantedLemmas %s" % fam,
                 subst=dict(FAM=fam, SMALL=lm["SMALL"], BIG=enc(big), NRHS=2, SEED=ctx.seed), workers=4)
 
@@ -61,11 +72,11 @@ def run(ctx):
             ctx.replay(bins[bn], "lapack", cases, args, name="R2 replay %s [%s]" % (fam, bn))
         # the same instances with the block size / crossover forced through the verifhook.Ilaenv override:
         # the blocked code runs on every small shape, around its own block edges
-        if fam != "larft":
+        if fam not in NOFORCE:
             for nb, nx in FORCED[ctx.tier]:
-                if fam != "qr" and nx != 0:
+                if fam not in ("qr", "qp3", "ls") and nx != 0:
                     continue        # only the QR/LQ family has a crossover parameter
-                for bn, _ in (builds[:2] if thorough else builds[:1]):
+                for bn, _ in builds[:1]:
                     ctx.replay(bins[bn], "lapack", cases, args + ["nb=%d" % nb, "nx=%d" % nx],
                                name="R2 replay %s nb=%d nx=%d [%s]" % (fam, nb, nx, bn))
 
